@@ -185,9 +185,10 @@ HARNESSES = [
     dict(name="inode_misc", file="inode_misc.c", timeout=170, malloc_fail=True, flags=_UF,
          label="bounded(dir index entries <= 2; name buffer 6 bytes)",
          fp={"read_at": "stub_read_at", "do_block": "stub_do_block"},
-         cases=[dict(id="unpack_index", defines={"FN": 1, "NENT": 2}, tier="quick",
+         cases=[dict(id="unpack_index%d" % n, defines={"FN": 1, "NENT": n},
+                     tier="quick" if n == 1 else "thorough", timeout=400,
                      unwindset=["sqfs_inode_unpack_dir_index_entry.0:5", "harness.0:4",
-                                "harness.1:4"]),
+                                "harness.1:4"]) for n in (1, 2)] + [
                 dict(id="entry_from_inode", defines={"FN": 2, "NLEN": 6}, tier="quick",
                      unwindset=["harness.0:7", "harness.1:7", "strnlen.0:8", "strlen.0:8",
                                 "verif_nd_bytes.0:100"])]),
